@@ -51,6 +51,13 @@ fn main() {
                         g.scripted_sweep();
                         g.snapshot(&mut wobs);
                     }
+                    if pages && h == 1 && seed % 1000 == 0 {
+                        g.scripted_bulk(300, 300);
+                    }
+                    if args[1] == "world" && h % 8 == 5 {
+                        g.scripted_dust();
+                        g.snapshot(&mut wobs);
+                    }
                     if args[1] == "world" && h % 8 == 3 {
                         g.scripted_forced_duplicates();
                         g.snapshot(&mut wobs);
